@@ -12,6 +12,7 @@
 -/
 import JaqVerif.Lemmas.C04Stack
 import JaqVerif.Lemmas.C04TailNest
+import JaqVerif.Lemmas.C04Run
 import JaqVerif.Gen.C04Defs
 
 namespace Jaq.C04
@@ -73,7 +74,7 @@ permit tail calls (`iterm`: arguments, conditions, left of `|`, `[…]`, operand
 call to its consumer; in particular the main program (compiled with `tr = ∅`) returns none, and a
 `Throw` is only ever generated for a definition the position is a tail position of.
 
-Missing for the full statement `throw_always_caught` (kept here as a comment):
+The full statement is `throw_always_caught` below (round 2).  History — what was missing in round 1:
     `∀ id, ¬ Esc (compileMain prelude main).2 (compileMain prelude main).1 id`
 where `Esc tab t id` is the least relation "evaluating entry `t` of the finished table may yield a
 `TailCall id` to its consumer" (propagation through every construct, `Inline` bodies, `CatchOne`
@@ -94,6 +95,46 @@ theorem throw_always_caught_partial (M : List ModDef) (t : Tm) (L : Locals) (s :
       simp at this
   refine ⟨key M t L s, fun prelude main => ?_⟩
   simp only [compileMain, wrapI_out, List.head?_cons, Option.map_some, key]
+
+/-- **`tr_annotation_sound`** (the invariant linking the static `Tr` sets to the run): in the finished
+table of `compileMain`, whatever an entry may hand to its consumer as a `TailCall` at run time
+(`MayThrow`, `C04/Run.lean`: the thrown tail calls that travel up the chain of consumers through
+`|`, `,`, `try`, `label`, `Inline` calls, closures of filter arguments … and are taken out only by a
+`CatchOne id`/`CatchAll` frame) is in the `Tr` set the compiler computed for that entry. -/
+theorem tr_annotation_sound (prelude : List DefS) (main : Tm) :
+    ∀ e ∈ (compileMain prelude main).2.out, ∀ j, MayThrow (compileMain prelude main).2.out e.id j → j ∈ e.tr := by
+  intro e he j h
+  have hi := (compileMain_inv prelude main).1
+  exact mayThrow_sound hi.nodup hi.good h e he rfl
+
+/-- **`throw_always_caught`** (the full, dynamic statement; replaces the comment that stood under
+`throw_always_caught_partial`): in a run of a program compiled by `compileMain` — any prelude
+module, any main term, tail nest or not — no `TailCall` exception reaches the user: the main entry
+hands no `TailCall j` to its consumer, for any `j`.  In terms of `MayThrow`'s derivations: every
+dynamic chain of consumers from the main entry down to a `CallDef j … Throw` passes a
+`CatchOne j` or `CatchAll` frame that runs the next link as (part of) its body, i.e. every
+thrown tail call is caught by a frame on the dynamic call chain. -/
+theorem throw_always_caught (prelude : List DefS) (main : Tm) (j : Nat) :
+    ¬ MayThrow (compileMain prelude main).2.out (compileMain prelude main).1 j := by
+  intro h
+  obtain ⟨hi, e, he, hid, hsub⟩ := compileMain_inv prelude main
+  exact absurd (hsub j (mayThrow_sound hi.nodup hi.good h e he hid)) (by simp)
+
+/-- the same for every position that is compiled without permission to throw (arguments,
+conditions, left of `|`, operands, `[…]`, `reduce`/`foreach` sources and updates, `try`, `label`):
+such a sub-term never hands a `TailCall` to the construct around it -/
+theorem nontail_position_never_throws (prelude : List DefS) (main : Tm) :
+    ∀ e ∈ (compileMain prelude main).2.out, ∀ k ∈ e.ct.nonTailKids, ∀ j,
+      ¬ MayThrow (compileMain prelude main).2.out k j := by
+  intro e he k hk j h
+  have hi := (compileMain_inv prelude main).1
+  obtain ⟨ek, hek, h1, h2⟩ := (hi.good e he).nt k hk
+  exact absurd (h2 j (mayThrow_sound hi.nodup hi.good h ek hek h1)) (by simp)
+
+/-- `MayThrow` is not empty: in `def f: f; f` the body of `f` (entry 1) throws a tail call to `f`,
+which the `CatchOne` call of the main program (entry 0) takes -/
+example : MayThrow (compileMain [] (.defIn 0 [] (.call 0 .nil) (.call 0 .nil))).2.out 1 1 :=
+  MayThrow.throw (e := ⟨1, .callDef 1 [] 0 .throw, [1]⟩) (List.Mem.tail _ (List.Mem.head _)) rfl
 
 /-- **`builtin_loops_are_tailnests`**: `repeat/1`, `recurse/0,1,2`, `while/2`, `until/2`, `range/1,2`,
 `paths/0,1` as defined in the real `defs.jq` files (translated on every run) are tail nests in the
